@@ -572,7 +572,31 @@ impl DefragQueue {
             // and     frame_window_size >= MIN_PAYLOAD_SIZE
 
             self.expected_frames = Some(expected_frames);
+
+            // Frames received before the packet size was known must fit into the packet too.
+            if self.has_frames_beyond_last_frame(expected_frames) {
+                // Packet will never be assembled, set to true so queue can be reused
+                self.idle = true;
+                return Err(DefragmentInsertError::InvalidHeaderValue(
+                    frame.header,
+                    "frame_beyond_last_frame",
+                ));
+            }
         };
+
+        // A non-last frame at or beyond the position of the last frame can never be part of the
+        // packet. Accepting it would let the number of received frames reach `expected_frames`
+        // without every frame of the packet being present.
+        if let Some(expected_frames) = self.expected_frames
+            && Self::is_beyond_last_frame(frame_index, expected_frames)
+        {
+            // Packet will never be assembled, set to true so queue can be reused
+            self.idle = true;
+            return Err(DefragmentInsertError::InvalidHeaderValue(
+                frame.header,
+                "frame_beyond_last_frame",
+            ));
+        }
 
         let mask_index = frame_index / BITMASK_ENTRY_BITS;
         let frame_bit_position = frame_index % BITMASK_ENTRY_BITS;
@@ -611,6 +635,22 @@ impl DefragQueue {
 
     fn received_frames(&self) -> usize {
         self.recv_mask.iter().map(|m| m.count_ones() as usize).sum()
+    }
+
+    /// Returns true if `frame_index` belongs to a non-last frame that lies at or beyond the
+    /// position of the last frame of a packet consisting of `expected_frames` frames.
+    fn is_beyond_last_frame(frame_index: usize, expected_frames: usize) -> bool {
+        // The last frame is tracked under the special index MAX_FRAMES - 1
+        frame_index != MAX_FRAMES - 1 && frame_index + 1 >= expected_frames
+    }
+
+    /// Returns true if a non-last frame at or beyond the position of the last frame was received.
+    fn has_frames_beyond_last_frame(&self, expected_frames: usize) -> bool {
+        (expected_frames.saturating_sub(1)..MAX_FRAMES - 1).any(|frame_index| {
+            let mask_index = frame_index / BITMASK_ENTRY_BITS;
+            let frame_bit_position = frame_index % BITMASK_ENTRY_BITS;
+            (self.recv_mask[mask_index] >> frame_bit_position) & 1 != 0
+        })
     }
 
     pub fn is_idle(&self) -> bool {
